@@ -1,12 +1,13 @@
 SPECIFICATION Spec
 CONSTANTS Depth = 2
- MaxSize = 7
+ MaxSize = 6
  Rich = FALSE
 INVARIANT WellFormed
 INVARIANT GenMatches
 INVARIANT NoSVarLeft
 INVARIANT PerturbedDiffers
 INVARIANT PosFOMatch
+INVARIANT SelfMatch
 INVARIANT WitnessUnique
 INVARIANT BadSeedUnmatchable
 INVARIANT WitnessesMatch
